@@ -46,6 +46,18 @@ def run(ctx, res):
         res.touched(prog.func(wrapper))
     res.extra["states"] = total
     res.guard(RR.rule_sink_error_path, prog, res)
+    # the refusal the failing sink raises (R-SINK-ERROR / refuse-writes) releases a writer only if the
+    # writer's wait loop leaves on it
+    from ..locks import LockAnalysis
+    from .. import lockrules as LR
+    la_ = LockAnalysis(prog)
+    sites_ = [s_ for s_ in la_.wait_sites() if s_["fn"].name == "channel_write_map"]
+    if not sites_:
+        from ..build import AnalysisBroken
+        raise AnalysisBroken("no wait site in channel_write_map")
+    for s_ in sites_:
+        LR.rule_refusal_ends_wait(la_, res, s_)
+    res.require_min("L-REFUSE-WAKES", 1)
     res.guard(RR.rule_source_error_path, prog, res)
     res.guard(RR.rule_thread_exit, prog, res)
     res.guard(RR.rule_start_reset, prog, res)
